@@ -14,14 +14,18 @@ def main(tier, seed):
     res = Result('C14', tier, 'proof', seed)
     # quick: the 32-bit big-endian target (ILP32: 32-bit long, size_t and pointers) for the field accessors, the CAN
     # builders and the VSS finaliser only; thorough: everything on both targets
-    targets = [('be', PORTABLE), ('be32', PORTABLE if tier == 'thorough' else ['c01', 'c02', 'c04', 'c06', 'c09'])]
+    # sparc (big-endian, traps on misaligned accesses: byte-wise fallbacks for strict-alignment hosts are live there) for
+    # the VSS codec, whose 16-bit length prefixes are the library's only byte-aligned multi-octet values
+    targets = [('be', PORTABLE), ('be32', PORTABLE if tier == 'thorough' else ['c01', 'c02', 'c04', 'c06', 'c09']),
+               ('be32s', ['c07', 'c08', 'c10'])]
     inner = 'thorough' if tier == 'thorough' else 'quick'
     for tg, names in targets:
         # mips is compiled the way GCC presents itself there: __GNUC__ = 12 and no __BIG_ENDIAN__ (GCC for MIPS, s390x,
         # SPARC, m68k defines __BYTE_ORDER__ and target-specific macros only; clang adds __BIG_ENDIAN__ everywhere)
         # powerpc64 presents itself as GCC 12 too (an LP64 target on which `#if __GNUC__ >= 5 && __LP64__` code is live)
         ctx = Ctx(tg, extra=('-fgnuc-version=12.2.0',), suffix='_gcc') if tg == 'be' else \
-            Ctx(tg, extra=('-fgnuc-version=12.2.0', '-U__BIG_ENDIAN__'), suffix='_gcclike')
+            Ctx(tg, extra=('-fgnuc-version=12.2.0', '-U__BIG_ENDIAN__'), suffix='_gcclike') if tg == 'be32' else \
+            Ctx(tg, suffix='_strict')
         if not ctx.mod.big_endian:
             from ..report import Broken
             raise Broken('target %s is not big-endian' % tg)
@@ -38,6 +42,6 @@ def main(tier, seed):
             for v in res.violations[before:]:
                 v['text'] = '[%s host, %s] %s' % (ctx.mod.triple, name.upper(), v['text'])
     res.rule = ('every obligation of C01/C02/C04/C06/C09 (+C07/C08/C10) re-evaluated on IR for powerpc64 (big-endian, 64-bit; '
-                'mips - big-endian, ILP32 - for C01/C02/C04/C06/C09, thorough for all); the little-endian results are the C01.. checks themselves')
-    res.assumptions.append('powerpc64 (and mips) IR is representative of big-endian hosts; libc headers are replaced by declarations in stubs/libc')
+                'mips - big-endian, ILP32 - for C01/C02/C04/C06/C09, thorough for all; sparc - big-endian, strict alignment - for C07/C08/C10); the little-endian results are the C01.. checks themselves')
+    res.assumptions.append('powerpc64, mips and sparc IR is representative of big-endian hosts; libc headers are replaced by declarations in stubs/libc')
     return res
